@@ -9,6 +9,7 @@ The spec is validated natively against datetime.date.toordinal on every run (GRO
 from __future__ import annotations
 
 import calendar
+import decimal
 import datetime
 
 from pyvc.values import *  # noqa
@@ -291,8 +292,21 @@ for _cls, _name in ((_Duration, 'duration'), (_DTD, 'dayTimeDuration'), (_YMD, '
         _post = [('seconds_are_the_exact_total_with_the_sign', f"returned and result.seconds == (-{_secs} if negative else {_secs})")]
     else:
         _post = [('months_are_the_exact_total_with_the_sign', f"returned and result.months == (-{_months} if negative else {_months})")]
+    def _native(i, _cls=_cls):
+        import decimal as _d
+        sec = format(_d.Decimal(i['s']), 'f')
+        if _cls is _DTD:
+            text = f"{'-' if i['negative'] else ''}P{i['d']}DT{i['h']}H{i['mi']}M{sec}S"
+        elif _cls is _YMD:
+            text = f"{'-' if i['negative'] else ''}P{i['y']}Y{i['mo']}M"
+        else:
+            text = f"{'-' if i['negative'] else ''}P{i['y']}Y{i['mo']}M{i['d']}DT{i['h']}H{i['mi']}M{sec}S"
+        return run(_cls.fromstring, text)
     CONTRACTS.append(Contract(f'Duration.fromstring.{_name}', 'C11', (lambda: _Duration.fromstring.__func__), fromstring_case(_cls),
-                              pre=_FIELDS_PRE, post=_post, native=None, expect_min_obligations=1,
+                              pre=_FIELDS_PRE, post=_post, native=_native, expect_min_obligations=1,
+                              samples=lambda rng: ({'negative': rng.random() < 0.5, 'y': rng.randint(0, 50), 'mo': rng.randint(0, 30), 'd': rng.randint(0, 400),
+                                                    'h': rng.randint(0, 50), 'mi': rng.randint(0, 200), 's': decimal.Decimal(rng.randint(0, 10 ** 6)) / 1000, 'text': ''}
+                                                   for _ in iter(int, 1)),
                               notes=['the regular expression match is havocked: its groups are arbitrary non-negative fields; a group that did not participate (None) '
                                      'is modelled by the value 0 (for the two subtypes the code also rejects a participating zero field of the other kind: lexical_space_grid in C10)']))
 
